@@ -5,8 +5,17 @@
 EXTENDS Naturals, Sequences, FiniteSets, TLC, Json
 
 CONSTANTS MaxLen,
-          Sizes          \* packet sizes (offset to next = memory size): 64 = no payload; any multiple of 16 up to 10064 otherwise
-Pkt == [link : {1, 2}, size : Sizes]
+          Pkts,          \* packet kinds [link, fee, size]: link id, FEE id, size (offset to next = memory size): 64 = no payload; any multiple of 16 up to 10064 otherwise
+          Filters,       \* filter options explored: records [k, v], k = "none" | "link" (--filter-link v) | "fee" (--filter-fee v) | "stave" (--filter-its-stave, v = 64 x layer + stave)
+          CutAll         \* TRUE: the input may end at every boundary of interest; FALSE: complete inputs only
+Pkt == Pkts
+NoFilter == [k |-> "none", v |-> 0]
+\* which packets a filter selects (doc: link id / FEE id / layer and stave of the FEE id, whatever the other FEE-id bits)
+LayerStave(fee) == (((fee \div 4096) % 8) * 64) + (fee % 64)
+PMatch(p, f) == CASE f.k = "none" -> TRUE
+                  [] f.k = "link" -> p.link = f.v
+                  [] f.k = "fee" -> p.fee = f.v
+                  [] f.k = "stave" -> LayerStave(p.fee) = f.v
 VARIABLES stream, filter, skip, src, cut,        \* the case (chosen in Init)
           i, out, seen, filt, pay, errs, done     \* the run
 vars == << stream, filter, skip, src, cut, i, out, seen, filt, pay, errs, done >>
@@ -17,12 +26,12 @@ Total(s) == IF s = << >> THEN 0 ELSE OffOf(s, Len(s)) + s[Len(s)].size
 Streams == UNION {[1..n -> Pkt] : n \in 1..MaxLen}
 Cuts(s) == {Total(s)} \cup UNION {{OffOf(s, k) + 32, OffOf(s, k) + 64} \cup (IF s[k].size > 64 THEN {OffOf(s, k) + 72} ELSE {}) : k \in 1..Len(s)}
 
-Init == /\ stream \in Streams /\ filter \in {0, 1, 2, 3} /\ skip \in BOOLEAN /\ src \in {"file", "pipe"}
-        /\ cut \in Cuts(stream) /\ cut >= 64        \* (a first RDH is present; shorter inputs are the C18 boundary cases)
+Init == /\ stream \in Streams /\ filter \in Filters /\ skip \in BOOLEAN /\ src \in {"file", "pipe"}
+        /\ cut \in (IF CutAll THEN Cuts(stream) ELSE {Total(stream)}) /\ cut >= 64        \* (a first RDH is present; shorter inputs are the C18 boundary cases)
         /\ i = 1 /\ out = << >> /\ seen = 0 /\ filt = 0 /\ pay = 0 /\ errs = << >> /\ done = FALSE
 
 Avail(k) == cut - OffOf(stream, k)
-Match(k) == filter = 0 \/ stream[k].link = filter
+Match(k) == PMatch(stream[k], filter)
 
 Step ==
   /\ ~done
@@ -36,7 +45,7 @@ Step ==
                    ELSE i' = i + 1 /\ UNCHANGED done
               /\ UNCHANGED << out, filt, pay, errs >>
          ELSE /\ seen' = seen + 1
-              /\ filt' = IF filter # 0 THEN filt + 1 ELSE filt
+              /\ filt' = IF filter.k # "none" THEN filt + 1 ELSE filt
               /\ pay' = pay + stream[i].size - 64
               /\ LET complete == Avail(i) >= stream[i].size IN
                  /\ out' = Append(out, [idx |-> i, off |-> OffOf(stream, i),
